@@ -193,6 +193,8 @@ def check(ctx):
     clamp_regions(ctx)
     set_value_sanitised(ctx)
     decode_assignment(ctx)
+    from ..rules import shared as _sh
+    _sh.check_constructor_store(ctx)     # stored values are per graph object: a later decode never rewrites them
     # memoisation on the decode path that assigns the values: keys must cover what the stored value depends on
     from ..rules import persist, decode
     fns, _ = decode.decode_slice(ctx)
